@@ -3140,6 +3140,10 @@ func TestC13(t *testing.T) {
 			evid.Excluded(classSharedAcrossParents)
 			return
 		}
+		if c.inClassSharedAcrossBatches() && harness.OpenClass("C13", classSharedAcrossBatches) {
+			evid.Excluded(classSharedAcrossBatches)
+			return
+		}
 		checkCase(rt, c)
 	})
 }
@@ -3223,6 +3227,49 @@ const classSharedPartlyNew = "shared-child-in-partly-new-slice"
 // only, a zero key is "always distinct": the one in-memory record is put into the nested Create
 // twice - its hooks fire twice and TWO rows are inserted for it.
 const classSharedAcrossParents = "shared-child-across-parents"
+
+// classSharedAcrossBatches: parents that share one new belongs-to record land in DIFFERENT batches of
+// CreateInBatches (or of a Create under CreateBatchSize). Every batch is a Create of its own with its
+// own visit map: the child saved with the first batch is created again with the next one (INSERT ..
+// ON CONFLICT DO NOTHING, the rows are right) and its four hooks fire a second time. Parents sharing
+// the child inside ONE batch are saved correctly (repaired in 4606f7f) and stay in the domain.
+const classSharedAcrossBatches = "shared-child-across-batches"
+
+// batchOf: the batch the i-th record of the argument falls into (-1: the operation does not batch).
+func (c *Case) batchOf(i int) int {
+	if (c.Op == opCreateBatches || c.BatchVia != "") && c.Batch > 0 {
+		return i / c.Batch
+	}
+	return -1
+}
+
+func (c *Case) inClassSharedAcrossBatches() bool {
+	if !c.hooksRun() || c.Share != "boss-across-parents" {
+		return false
+	}
+	first := map[string]int{} // boss tag -> batch of the first parent holding it
+	for i, r := range c.Recs {
+		if r.Boss == nil {
+			continue
+		}
+		if b, ok := first[r.Boss.Tag]; ok && b != c.batchOf(i) {
+			return true
+		}
+		if _, ok := first[r.Boss.Tag]; !ok {
+			first[r.Boss.Tag] = c.batchOf(i)
+		}
+	}
+	return false
+}
+
+func TestC13WitnessSharedChildAcrossBatches(t *testing.T) {
+	b := &KidSpec{Tag: "r0.boss", Name: "b"}
+	recs := []RecSpec{{Tag: "r0", Name: "a", Note: "n", Boss: b}, {Tag: "r1", Name: "b", Note: "n", Boss: b}}
+	// control: both parents in one batch - holds
+	checkCase(t, &Case{Op: opCreateBatches, Batch: 2, Shape: shPtrPSlice, Probe: "exec", Share: "boss-across-parents", Recs: recs})
+	checkCase(errorfer{t}, &Case{Op: opCreateBatches, Batch: 1, Shape: shPtrPSlice, Probe: "exec", Share: "boss-across-parents", Recs: recs})
+	checkCase(errorfer{t}, &Case{Op: opCreate, BatchVia: "session", Batch: 1, Shape: shPtrSlice, Probe: "exec", Share: "boss-across-parents", Recs: recs})
+}
 
 func TestC13WitnessSharedChildPartlyNew(t *testing.T) {
 	b := &KidSpec{Tag: "r0.boss", Name: "b"}
